@@ -73,7 +73,14 @@ func checkC07(h *hx.H, c progCase) {
 				continue // offsets drift after invalid bytes (C02 finding)
 			}
 			if e.Range.Start.Byte < 0 || e.Range.End.Byte > len(src) || e.Range.Start.Line < 0 || e.Range.Start.Column < 0 {
-				h.FailSoft("err-outside-file", "error %q has range %s-%s outside %q (%d bytes)", e.Message, e.Range.Start.Debug(), e.Range.End.Debug(), e.Range.Path, len(src))
+				sig := "err-outside-file"
+				if strings.HasSuffix(e.Message, "missing value after colon") && e.Range.Start.Column < 0 && e.Range.End.Byte <= len(src) {
+					// the start is computed as "end minus one colon" while the end is wherever value
+					// parsing stopped (C02 err-range:missing-value-start): at the start of a line the
+					// column goes negative
+					sig = "err-outside-file:missing-value-start"
+				}
+				h.FailSoft(sig, "error %q has range %s-%s outside %q (%d bytes)", e.Message, e.Range.Start.Debug(), e.Range.End.Debug(), e.Range.Path, len(src))
 			}
 		}
 	} else {
